@@ -185,6 +185,7 @@ def clause_extension_wiring(prog, rep):
     raw = prog.adt("TlsNostrGroupDataExtension", crate="mdk_core")
     fields = [fd["name"] for fd in ext["variants"][0]["fields"]]
     rawf = [fd["name"] for fd in raw["variants"][0]["fields"]]
+    rawf_set = set(rawf)
     rep.check(sorted(RENAME.get(x, x) for x in fields) == sorted(rawf), "extension-wiring", "field-sets",
               "typed and wire structs have the same %d fields (admins<->admin_pubkeys)" % len(fields),
               "field sets differ: typed %s vs wire %s" % (fields, rawf))
@@ -209,6 +210,47 @@ def clause_extension_wiring(prog, rep):
                           "%s.%s <- %s" % (side, dst_field, src_field),
                           "%s wires %s from %s (expected %s): the extension does not round-trip" % (side, dst_field, sorted(flds & set(mapping.values())), src_field),
                           "%s:%s" % (f.file, s.get("line")))
+    # presence of an optional field is decided by that field alone (as_raw writes it whatever the version): a None chosen on any other
+    # condition (e.g. the extension version) makes from_raw(as_raw(x)) != x and skips the field's length check
+    fr0 = fr[0]
+    final = [(bb, s_) for bb, s_ in fr0.aggregates("NostrGroupDataExtension") if s_.get("fields")]
+    for bb, s_ in final[:1]:
+        for fld in sorted(OPTIONAL):
+            o = A.agg_field_operand(s_, fld)
+            if not o or "p" not in o:
+                continue
+            foreign = set()
+            nsw = 0
+            locs = A.copy_sources(fr0, o["p"][0]) if hasattr(A, "copy_sources") else {o["p"][0]}
+            locs = set(x for x in locs if isinstance(x, int)) | {o["p"][0]}
+            none_b, some_b = set(), set()
+            for l in locs:
+                for dbb, kind, x in fr0.defs().get(l, []):
+                    if kind == "stmt" and x.get("k") == "agg" and last_seg(x.get("adt")) == "Option":
+                        (none_b if x.get("variant") == "None" else some_b).add(dbb)
+            # the switches that decide between the None and the Some construction of this field
+            for w in range(fr0.nblocks()):
+                t = fr0.term(w)
+                if t["k"] != "switch":
+                    continue
+                sides = []
+                for sx in fr0.succs()[w]:
+                    r = fr0.reachable_from(sx)
+                    sides.append((bool(r & none_b), bool(r & some_b)))
+                if not (any(n_ and not s__ for n_, s__ in sides) and any(s__ for n_, s__ in sides)):
+                    continue
+                dl = A._opl(t["discr"])
+                if dl is None:
+                    continue
+                og = A.origins(prog, fr0, dl, scope=None, max_frames=0)
+                rawf = set(x for x in og.fields if x in rawf_set)
+                if rawf:
+                    nsw += 1
+                    foreign |= rawf - {fld}
+            rep.check(nsw > 0 and not foreign, "extension-wiring", "presence/%s" % fld,
+                      "whether %s is present depends on the wire field %s alone" % (fld, fld),
+                      "whether %s is present also depends on %s: as_raw writes the field unconditionally, so the extension no longer round-trips "
+                      "and the field's length check is skipped in that case" % (fld, sorted(foreign) or "no test of the field itself"), fr0.loc())
     # fixed-length conversions fail with the matching variant
     fam = [fr[0]] + [prog.fns[p] for p in prog.extent(fr[0]) if p in prog.fns and prog.fns[p].root == fr[0].path and p != fr[0].path]
     built = set(s["variant"] for g in fam for bb, s in g.aggregates("Error"))
